@@ -417,7 +417,7 @@ def close_copies(tr, closed_at, client_addr):
     the wire after the one carrying its first CONNECTION_CLOSE must (1) be byte-identical to that datagram (same length,
     same leading bytes) and (2) answer an incoming datagram: close_sender.rs arms a timer of one `latest_rtt` when a
     datagram is attributed to the closing connection and sends the copy when it fires, so a copy at time t needs a
-    datagram that reached the endpoint at t - latest_rtt (to the granularity of the timer wheel), and two copies need
+    datagram that reached the endpoint at t - latest_rtt (within a millisecond: timer granularity, rounding of the reported rtt), and two copies need
     two different such datagrams."""
     bad = []
     wires = tr.of("wire")
@@ -445,7 +445,7 @@ def close_copies(tr, closed_at, client_addr):
             cand = sorted({v for (t, v) in rtts if t <= w.t})
             if not cand:
                 continue
-            arm = next((a for a in arrivals if a not in used and a < w.t and any(-1.0 <= w.t - (a + v) <= 1000.0 for v in cand)), None)
+            arm = next((a for a in arrivals if a not in used and a < w.t and any(-1000.0 <= w.t - (a + v) <= 1000.0 for v in cand)), None)
             if arm is None:
                 near = [a for a in arrivals if a < w.t][-3:]
                 bad.append(("e2e:c12:close-copy-not-armed-by-datagram", f"endpoint {ep} sent a copy of its close packet at {w.t}us, but no datagram reached it one latest_rtt earlier (rtt candidates {cand[-4:]}us; last arrivals before it {near}): the copy was not triggered by an incoming packet"))
